@@ -152,12 +152,14 @@ FaultProg(x) ==
 (* family "seq": sequences of frames followed by trailing bytes, read by successive calls *)
 (* the same bodies under type nibbles whose layout is empty or optional: a decoder must still take the announced bytes *)
 Retyped == {<<b>> \o Tail(f) : b \in {0, 192, 208, 224, 240}, f \in {x \in ShortFrames : Framed(x) /\ Len(x) \in 3..7}}
-SeqFrames == {f \in ShortFrames : Len(f) <= 9} \cup (IF Thorough THEN Retyped ELSE {})
-             \cup {<<64, 6, 0, 7, 0, 2, 11, 99>>, <<50, 8, 0, 1, 97, 0, 7, 2, 11, 5>>, <<0, 3, 9, 8, 7>>}   \* accepted foreign id; PUBLISH with one; type 0
+SeqBase == {f \in ShortFrames : Len(f) <= 9}
+           \cup {<<64, 6, 0, 7, 0, 2, 11, 99>>, <<50, 8, 0, 1, 97, 0, 7, 2, 11, 5>>, <<0, 3, 9, 8, 7>>}   \* accepted foreign id; PUBLISH with one; type 0
+SeqFrames == SeqBase \cup (IF Thorough THEN Retyped ELSE {})
 Trailers == {<<>>, <<48>>, <<64, 2, 0>>, <<255, 255, 255, 255, 255, 1>>}
 SeqCases ==
   {[kind |-> "seq", fs |-> fs, tr |-> tr, with |-> FALSE] :
-     fs \in UNION {[1..n -> SeqFrames] : n \in (IF Thorough THEN 1..3 ELSE 1..2)}, tr \in Trailers}
+     fs \in UNION {[1..n -> SeqFrames] : n \in 1..2} \cup (IF Thorough THEN [1..3 -> SeqBase] ELSE {}), tr \in Trailers}     \* (triples over the base
+                                                                                                  \* frames only: the set of cases stays below TLC's limit of 10^6)
   \cup {[kind |-> "seq", fs |-> <<a, b>>, tr |-> tr, with |-> w] :          \* retyped frame first / last; EOF with the last bytes
          a \in Retyped \cup SeqFrames, b \in {<<192, 0>>, <<64, 2, 0, 1>>, <<224, 0>>}, tr \in {<<>>, <<48>>}, w \in BOOLEAN}
   \cup {[kind |-> "seq", fs |-> <<b, a>>, tr |-> <<>>, with |-> TRUE] :
